@@ -150,4 +150,11 @@ pub open spec fn appended(o: &WriteCursor, n: &WriteCursor, out: Seq<u8>) -> boo
     && (forall|i: int| 0 <= i < o.pos ==> #[trigger] n.buf()[i] == o.buf()[i])
     && (forall|i: int| 0 <= i < out.len() ==> #[trigger] n.buf()[o.pos + i] == out[i])
 }
+// updating a byte outside [a, b) does not change that sub-range (pure sequence fact)
+pub broadcast proof fn lemma_subrange_update_outside(s: Seq<u8>, i: int, v: u8, a: int, b: int)
+    requires 0 <= a <= b <= s.len(), 0 <= i < s.len(), i < a || b <= i,
+    ensures #[trigger] s.update(i, v).subrange(a, b) == s.subrange(a, b)
+{
+    assert(s.update(i, v).subrange(a, b) =~= s.subrange(a, b));
+}
 //@trusted scursor::{ReadCursor,WriteCursor}: hand-written model with the documented semantics (sequence reads; writes fail without effect when space is short; seek/skip bounded by the buffer) - conformance to the real crate: Kani harnesses k_scursor_* (bounded buffers)
